@@ -1,6 +1,11 @@
 (* C02 — Every key held on the output is justified by what is held on the input.
-   Statements only. *)
+   Statements only.  The theorems about `held_all` concern the events the mapper
+   returns; C02_loop_device_held_is_mapper_held / C02_loop_device_in_step at the
+   end carry them through the event loop to what is WRITTEN to the virtual
+   keyboard (TM.LoopDevice, proofs in TM.LoopDeviceLemmas; the extracted monitor
+   runs on the transcripts of the REAL loop, clause C02.device). *)
 From TM Require Import Base Mapper Monitors Trace MapperInv MapperProps.
+From TM Require Loop LoopSpec LoopDevice LoopDeviceLemmas.
 
 (* Clause 1.  After EVERY history (hence at every prefix of every history), each
    key held on the virtual keyboard is physically held, or is an output key of a
@@ -59,3 +64,42 @@ Example C02_example :
   /\ mem 46%N (phys_of h) = true
   /\ mem 46%N (held_all ia L h) = false.
 Proof. vm_compute. repeat split; reflexivity. Qed.
+
+(* ---------- at the device: through the event loop ---------- *)
+
+(* In EVERY configuration of EVERY run of the per-device loop (any answer
+   script), layout accepted by Mapper::for_layout: the keys held on the device
+   by the events of all acknowledged sends followed by the send being waited on
+   are exactly `held_all` of the inputs the transcript implies for the mapper so
+   far - the set that C02_justified, C02_silenced_key and C02_trigger_consumed
+   speak about.  So every key down on the real virtual keyboard is justified. *)
+Theorem C02_loop_device_held_is_mapper_held :
+  forall (is_action : key -> bool) (L : layout),
+    for_layout_ok L = true ->
+    forall (rs : list Loop.resp) (cs : list Loop.call) (o : Loop.outcome) (k : nat) (x : LoopSpec.conf),
+    Loop.run is_action L rs = (cs, o) -> LoopSpec.conf_at is_action L rs k = Some x ->
+    forall key : key,
+      In key (apply_evs [] (LoopDeviceLemmas.written_at cs rs k x))
+      <-> In key (held_all is_action L (LoopSpec.minputs false (firstn k (combine cs rs)))).
+Proof. intros ia L Hok rs cs o k x. exact (LoopDeviceLemmas.loop_device_held_is_mapper_held ia L rs cs o k x Hok). Qed.
+Print Assumptions C02_loop_device_held_is_mapper_held.
+
+(* The extracted one-pass monitor LoopDevice.device_check (applied by the loop
+   engine to every transcript of the REAL loop; clause D_step - the device's
+   held set differs from the specification mapper's - is reported as
+   C02.device) never fires on a transcript of the model, for ALL answer
+   scripts.  What a hit means: C01_device_monitor_hit_means; a transcript on
+   which it fires: C01_example_device_monitor (Properties/C01.v). *)
+Theorem C02_loop_device_in_step :
+  forall (is_action : key -> bool) (L : layout),
+    for_layout_ok L = true ->
+    forall (rs : list Loop.resp) (cs : list Loop.call) (o : Loop.outcome),
+    Loop.run is_action L rs = (cs, o) ->
+    LoopDevice.device_check is_action L (combine cs rs) = []
+    /\ forall n : N, ~ In (n, LoopDevice.D_step) (LoopDevice.device_check is_action L (combine cs rs)).
+Proof.
+  intros ia L Hok rs cs o Hrun. split.
+  - exact (LoopDeviceLemmas.device_check_silent ia L rs cs o Hok Hrun).
+  - intros n. exact (LoopDeviceLemmas.device_clause_silent ia L rs cs o Hok Hrun n LoopDevice.D_step).
+Qed.
+Print Assumptions C02_loop_device_in_step.
